@@ -21,6 +21,7 @@ type ModelDecl struct {
 	Name   string
 	Params []Param
 	Ret    Sort
+	Ghost  bool // pure ghost: only ghost clauses of /repo contracts change it (library code cannot)
 }
 
 type UFunDecl struct {
@@ -125,7 +126,7 @@ func (s *Specs) sortByName(n string) (Sort, error) {
 	return "", fmt.Errorf("unknown sort %q", n)
 }
 
-var clauseKeywords = map[string]bool{"func": true, "lib": true, "iface": true, "model": true, "ufun": true, "def": true, "axiom": true, "const": true,
+var clauseKeywords = map[string]bool{"func": true, "lib": true, "iface": true, "model": true, "ghostmodel": true, "ufun": true, "def": true, "axiom": true, "const": true,
 	"requires": true, "ensures": true, "assigns": true, "pure": true, "readonly": true, "inline": true, "loop": true, "sink": true, "at": true,
 	"trusted": true, "alias": true, "returns": true, "also": true, "like": true, "fresh": true, "panics": true, "props": true, "sort": true, "params": true, "constglobal": true, "ghost": true}
 
@@ -220,13 +221,13 @@ func (s *Specs) loadSpecFile(path string) error {
 			}
 			s.Contracts[key] = cur
 			s.Order = append(s.Order, key)
-		case "model", "ufun":
+		case "model", "ufun", "ghostmodel":
 			name, ps, ret, _, err := s.parseSig(rest, false)
 			if err != nil {
 				return fmt.Errorf("%s: %v", where, err)
 			}
-			if kw == "model" {
-				s.Models[name] = &ModelDecl{name, ps, ret}
+			if kw == "model" || kw == "ghostmodel" {
+				s.Models[name] = &ModelDecl{name, ps, ret, kw == "ghostmodel"}
 			} else {
 				s.UFuns[name] = &UFunDecl{name, ps, ret}
 			}
